@@ -69,6 +69,11 @@ def run(ctx):
     dist["prefix_previews"] = len(flines)
     mouts = ctx.run_lines(core.DRIVER, ["preview"], flines, timeout=900)[1]
     for (c, pre, raw, got), m in zip(fmeta, mouts):
+        if got.startswith("U") and got[1:].strip():
+            ctx.spec_failures.append({"stream": "previews", "input": c, "impl": f"preview of prefix {pre!r} returned a unit-typed result", "model": "",
+                                      "spec": "a preview never returns unit-typed text"})
+        if got.startswith("U"):
+            got = got[1:]
         if got.strip():
             dist["nonempty_previews"] += 1
             txt = "".join(chr(int(w, 16)) for w in got.split())
